@@ -983,7 +983,7 @@ fn vt_case(r: &mut Report, seed: u64, idx: u64) {
 // 2. calling-context matrix, 3. worker termination (native threads)
 // ---------------------------------------------------------------------------
 
-#[cfg(not(miri))]
+#[cfg_attr(miri, allow(dead_code))]
 mod threads {
     use super::*;
     use std::{
@@ -1558,12 +1558,12 @@ mod threads {
         }
     }
 
-    fn termination_case(r: &mut Report, seed: u64, i: u64) {
+    pub fn termination_case(r: &mut Report, seed: u64, i: u64) {
         let mut g = Rng::stream(seed, &[8, 3, i]);
         let rk = RecvKind::pick(&mut g);
         let cap = *g.pick(&[1usize, 2, 8, 1 << 16]);
         let fail_every = *g.pick(&[0u64, 0, 1, 2, 3]);
-        let n_items = g.below(40);
+        let n_items = g.below(if cfg!(miri) { 8 } else { 40 });
         let n_flush = g.below(4);
         let stall_first = g.chance(1, 3);
         let case = json!({
@@ -1715,6 +1715,18 @@ fn main() {
         }
         if want("join") {
             threads::termination(&mut r, &args);
+        }
+        emit_batcher::verif::set_delay_divisor(1);
+    }
+
+    #[cfg(miri)]
+    {
+        // a few real worker threads under Miri's scheduler (sync::spawn only; no tokio under Miri)
+        emit_batcher::verif::set_delay_divisor(1000);
+        if want("join") {
+            for i in 0..args.get_u64("miri-join", 2) {
+                threads::termination_case(&mut r, seed, i);
+            }
         }
         emit_batcher::verif::set_delay_divisor(1);
     }
